@@ -459,6 +459,32 @@ var Probes = []Probe{
 		Run: formatVsGo("%d", &tengo.String{Value: "s"}, "s")},
 	{ID: "O39", Props: []string{"C17"}, Input: `format("%c", bytes("ab"))`, WhatFail: "a bytes operand under a documented verb other than s q x X v d prints nothing where Go's fmt prints the element list: \"\" for [a b]",
 		Run: formatVsGo("%c", &tengo.Bytes{Value: []byte("ab")}, []byte("ab"))},
+	{ID: "C20-4", Props: []string{"C20"}, Input: "f(1 ...)   f(0x1F ...)   g(a, 2.5 ...)   (the spread of a number literal)", WhatFail: "CallExpr.String() printed `f(1...)`, which scans as the float literal `1.` followed by `..`: the printed form of a parsed program did not parse again (`expected selector, found '.'`; `0x1F...`: invalid float)",
+		Run: func() (fails bool, obs string) {
+			defer func() {
+				if r := recover(); r != nil {
+					fails, obs = true, fmt.Sprintf("panic: %v", r)
+				}
+			}()
+			for _, src := range []string{"f(1 ...)", "f(0x1F ...)", "g(a, 2.5 ...)", "h(1. ...)", "x := f(0b11 ...)[0]"} {
+				b := []byte(src)
+				fs := parser.NewFileSet()
+				f1, err := parser.NewParser(fs.AddFile("(a)", -1, len(b)), b, nil).ParseFile()
+				if err != nil {
+					continue // not a program
+				}
+				printed := f1.String()
+				pb := []byte(printed)
+				f2, err := parser.NewParser(fs.AddFile("(b)", -1, len(pb)), pb, nil).ParseFile()
+				if err != nil {
+					return true, fmt.Sprintf("%q prints as %q, which does not parse: %v", src, printed, err)
+				}
+				if again := f2.String(); again != printed {
+					return true, fmt.Sprintf("%q prints as %q, which prints as %q", src, printed, again)
+				}
+			}
+			return false, ""
+		}},
 	{ID: "O46", Props: []string{"C02", "C12"}, Input: "cp.Compile(`a := 7; b := 7; mk := func() { x := 1; return func() { return x } }; f := func() { return \"hello\" }`); b1 := cp.Bytecode(); b1.RemoveDuplicates(); cp.Compile(`out := mk()(); s := f()`); b2 := cp.Bytecode(); run b2", WhatFail: "RemoveDuplicates rewrote the instructions of the compiler's own function constants in place: a later Bytecode() of the same Compiler pairs the renumbered function bodies with the un-deduplicated constant table (CLOSURE names an Int: 'not function'; f() returns 7)",
 		Run: func() (fails bool, obs string) {
 			defer func() {
